@@ -742,6 +742,46 @@ pub fn grid_cases(reg: &Registry, prop: Prop, seed: u64) -> Vec<GridCase> {
                                     }
                                 }
                                 ops.push(Op::Drop { id: c2, task: 0 });
+                                // clone_from onto instances keyed with keys related to this one (a re-keying that
+                                // decides by a part of the key or of the schedule whether anything changed shows
+                                // only on such targets): one bit apart, same first half, same second half, and for
+                                // AES-192/256 the same last / a middle round key; then the reverse direction
+                                if !fixed {
+                                    let mut related: Vec<Vec<u8>> = Vec::new();
+                                    let mut k1 = key.clone();
+                                    let bi = rng.below(klen as u64) as usize;
+                                    k1[bi] ^= 1 << rng.below(8);
+                                    related.push(k1);
+                                    let mut k2 = rng.bytes(klen);
+                                    k2[..klen / 2].copy_from_slice(&key[..klen / 2]);
+                                    related.push(k2);
+                                    let mut k3 = rng.bytes(klen);
+                                    k3[klen - klen / 2..].copy_from_slice(&key[klen - klen / 2..]);
+                                    related.push(k3);
+                                    if fam.name.starts_with("aes") {
+                                        related.extend(crate::workload::schedule_twin::twin(&key, None, &mut rng));
+                                        related.extend(crate::workload::schedule_twin::twin(&key, Some(3 + rng.below(8) as usize), &mut rng));
+                                    }
+                                    for (ri, rk) in related.into_iter().enumerate() {
+                                        if rk == key {
+                                            continue;
+                                        }
+                                        let (b, a2) = (a + 5000 + 10 * ri as u32, a + 5001 + 10 * ri as u32);
+                                        ops.push(Op::New { id: b, task: 0, fam: f, role, key: rk, fixed: false });
+                                        ops.push(Op::Clone { id: a2, task: 0, src: a });
+                                        if ri % 2 == 0 {
+                                            // target used before it is re-keyed
+                                            grid_calls(&mut rng, &mut ops, b, role, fam.block, &[1], false);
+                                        }
+                                        // a2 (key) takes b's key over; then b takes the original key from a
+                                        ops.push(Op::CloneFrom { id: a2, task: 0, src: b });
+                                        grid_calls(&mut rng, &mut ops, a2, role, fam.block, &[1], false);
+                                        ops.push(Op::CloneFrom { id: b, task: 0, src: a });
+                                        grid_calls(&mut rng, &mut ops, b, role, fam.block, &[1], false);
+                                        ops.push(Op::Drop { id: a2, task: 0 });
+                                        ops.push(Op::Drop { id: b, task: 0 });
+                                    }
+                                }
                                 ops.push(Op::Drop { id: a, task: 0 });
                             }
                         }
@@ -1017,14 +1057,19 @@ pub fn target_route_case(reg: &Registry, fam_name: &str, variant: &str, mask: bo
 /// One short history per family for the interpreter's family sweep (every crate on every simulated target):
 /// construct, multi-block buffer-to-buffer call, single-block decrypt, clone, in/out call on the clone,
 /// and for families with halves a by-reference conversion to the decrypt-only type.
-pub fn target_sweep_case(reg: &Registry, fam_name: &str, seed: u64) -> Option<GridCase> {
+pub fn target_sweep_case(reg: &Registry, fam_name: &str, seed: u64, only_variants: &str) -> Option<GridCase> {
     use crate::registry::{Dir, Role, Shape};
     let f = reg.family(fam_name)?;
     let fam = &reg.families[f];
     let mut rng = Prng::new(seed ^ 0x5EE9 ^ (f as u64) << 16);
-    // the default build and the last listed variant
+    // "-": the default build and the last listed variant; otherwise a comma-separated list of variant names
     let mut vs = vec![0usize];
-    if fam.variants.len() > 1 {
+    if only_variants != "-" {
+        vs = only_variants.split(',').filter_map(|n| fam.variants.iter().position(|v| v.variant == n)).collect();
+        if vs.is_empty() {
+            return None;
+        }
+    } else if fam.variants.len() > 1 {
         vs.push(fam.variants.len() - 1);
     }
     let mut variants = std::collections::BTreeMap::new();
